@@ -1,8 +1,10 @@
 import RsslVerif.Model.Compile
+import RsslVerif.Model.PipelineTyper
 import RsslVerif.Driver.Util
-/-! Line-protocol front end of the C17 model (pipeline selection loop). -/
+/-! Line-protocol front end of the C17 models (pipeline selection loop, type checker's pipeline processing). -/
 namespace RsslVerif.Driver.C17
 open RsslVerif.Gen.CompileTables RsslVerif.Model.Compile RsslVerif.Driver
+open RsslVerif.Model.PipelineTyper
 
 def parseStage (s : String) : Option Stage :=
   [Stage.Vertex, .Task, .Mesh, .Pixel, .Compute].find? (fun st => st.name == s)
@@ -33,6 +35,185 @@ def parseMode (s : String) : Option Mode :=
 def showOut (stages : List (Stage × String)) : String :=
   "[" ++ ",".intercalate (stages.map fun (s, f) => s.name ++ "(" ++ f ++ ")") ++ "]"
 
+/-! ## the program encoding of harness/src/c17/wgen.rs -/
+
+/-- split at the commas that are not inside braces -/
+def splitTop (s : String) : List String :=
+  let rec go (cs : List Char) (depth : Nat) (cur : List Char) (acc : List String) : List String :=
+    match cs with
+    | [] => (if cur.isEmpty then acc else String.ofList cur.reverse :: acc).reverse
+    | c :: r =>
+      if c == '{' then go r (depth + 1) (c :: cur) acc
+      else if c == '}' then go r (depth - 1) (c :: cur) acc
+      else if c == ',' && depth == 0 then go r depth [] (String.ofList cur.reverse :: acc)
+      else go r depth (c :: cur) acc
+  go s.toList 0 [] []
+
+def parseScalar (s : String) : Option Scalar :=
+  if s == "{}" then some .emptyAgg
+  else
+    match s.splitOn ":" with
+    | k :: rest =>
+      let v := ":".intercalate rest
+      if rest.isEmpty then none
+      else if k == "i" then some (.ident v)
+      else if k == "q" then some (.qual v)
+      else if k == "s" then some (.str v)
+      else if k == "n" || k == "k" then v.toNat?.map .num
+      else if k == "m" then v.toNat?.map .neg
+      else if k == "f" then some (.float v)
+      else if k == "b" then some (.bool (v == "1"))
+      else none
+    | [] => none
+
+def splitEq (s : String) : Option (String × String) :=
+  match s.splitOn "=" with
+  | n :: rest => if rest.isEmpty then none else some (n, "=".intercalate rest)
+  | [] => none
+
+def parseVal (s : String) : Option Val :=
+  if s.startsWith "{" && s.endsWith "}" then
+    let inner := ((s.drop 1).dropEnd 1).toString
+    (sequenceOpt ((splitTop inner).map fun x =>
+      match splitEq x with
+      | some (n, v) => (parseScalar v).map (n, ·)
+      | none => none)).map .agg
+  else (parseScalar s).map .single
+
+def parseProp (s : String) : Option (String × Val) :=
+  match splitEq s with
+  | some (n, v) => (parseVal v).map (n, ·)
+  | none => none
+
+def parseThreads (s : String) : Option (Option (Nat × Nat × Nat)) :=
+  if s == "-" then some none
+  else
+    match (s.splitOn ",").map (fun x => (if x.startsWith "c" then (x.drop 1).toString else x).toNat?) with
+    | [some x, some y, some z] => some (some (x, y, z))
+    | _ => none
+
+def hasFlag (flags : String) (c : Char) : Bool := flags.toList.contains c
+
+def activeFlags (on : Bool) (flags : String) : Bool :=
+  !(hasFlag flags 'D' && !on) && !(hasFlag flags 'E' && on)
+
+/-- `none` = malformed; items the model does not look at (resources, statics, inactive items) are dropped -/
+def parseItem (on : Bool) (s : String) : Option (List Item) :=
+  match (s.splitOn " ").filter (· ≠ "") with
+  | "R" :: _ => some []
+  | "S" :: _ => some []
+  | "T" :: _ => some []
+  | ["F", name, sf, th, _, _, _] =>
+    let shape := (sf.take 1).toString
+    let flags := (sf.drop 1).toString
+    if !activeFlags on flags then some []
+    else
+      (parseThreads th).map fun t =>
+        [.func { name := name,
+                 shape := shape ++ (if hasFlag flags 'M' then "M" else "") ++ (if hasFlag flags 'N' then "N" else ""),
+                 isTemplate := hasFlag flags 'T', hasBody := !hasFlag flags 'd', threads := t }]
+  | "P" :: name :: flags :: props =>
+    if !activeFlags on flags then some []
+    else (sequenceOpt (props.map parseProp)).map fun ps => [.pipe { name := name, props := ps }]
+  | _ => none
+
+/-- the name of a resource item whose flags say that the declaration is invalid (`x`) -/
+def badDecl? (item : String) : Option String :=
+  match (item.splitOn " ").filter (· ≠ "") with
+  | "R" :: name :: _ :: _ :: _ :: flags :: _ => if hasFlag flags 'x' then some name else none
+  | _ => none
+
+/-- the items up to the first declaration the front end rejects, and that declaration's name -/
+def splitAtBadDecl : List String → List String × Option String
+  | [] => ([], none)
+  | it :: rest =>
+    match badDecl? it with
+    | some n => ([], some n)
+    | none => let (a, b) := splitAtBadDecl rest; (it :: a, b)
+
+/-- the model's items (up to the first invalid declaration, whose name is the second component) -/
+def parseProgram (on : Bool) (s : String) : Option (List Item × Option String) :=
+  if s.isEmpty then some ([], none)
+  else
+    let (pre, bad) := splitAtBadDecl (s.splitOn " | ")
+    (sequenceOpt (pre.map (parseItem on))).map fun l => (l.flatten, bad)
+
+/-- an active Pipeline block has a property without a value (`x:0`): the parser rejects the file -/
+def hasGarbage (on : Bool) (s : String) : Bool :=
+  (s.splitOn " | ").any fun item =>
+    match (item.splitOn " ").filter (· ≠ "") with
+    | "P" :: _ :: flags :: props => activeFlags on flags && props.any (fun p => (p.splitOn "=x:").length > 1)
+    | _ => false
+
+/-- the file declares the structured buffer whose element layouts differ between HLSL and Metal
+    (observed: `check_layout` does not look inside an *array* of such buffers) -/
+def hasLayoutTrap (s : String) : Bool :=
+  (s.splitOn " | ").any fun item =>
+    match (item.splitOn " ").filter (· ≠ "") with
+    | "R" :: _ :: kind :: len :: _ => kind == "TrapBuffer" && len == "-"
+    | _ => false
+
+/-- a function defined twice (same name, signature, scope): a front-end error outside the model -/
+def hasRedefinition : List Item → Bool
+  | [] => false
+  | .func f :: rest =>
+    (f.hasBody && rest.any (fun it => match it with
+      | .func g => g.hasBody && g.name == f.name && g.shape == f.shape
+      | .pipe _ => false)) || hasRedefinition rest
+  | .pipe _ :: rest => hasRedefinition rest
+
+def showTgs : Option (Nat × Nat × Nat) → String
+  | none => "-"
+  | some (x, y, z) => s!"{x},{y},{z}"
+
+def showAttachment (a : Attachment) : String :=
+  if a == defaultAttachment then "d"
+  else s!"{if a.enabled then 1 else 0}:{a.src}:{a.dst}:{a.op}:{a.srcA}:{a.dstA}:{a.opA}:{a.mask}"
+
+def showState : Option GState → String
+  | none => "-"
+  | some g =>
+    "rt=[" ++ ",".intercalate (g.rt.map fun o => o.getD "-") ++ "];depth=" ++ g.depth.getD "-" ++
+    ";cull=" ++ g.cull ++ ";wind=" ++ g.wind ++ ";blend=[" ++ "/".intercalate (g.blend.map showAttachment) ++ "]"
+
+def showIrPipe (p : IrPipe) : String :=
+  p.name ++ "{g=" ++ toString p.group ++ ";" ++
+    ",".intercalate (p.stages.map fun s => s.stage.name ++ "=" ++ s.entryName ++ "@" ++ showTgs s.tgs) ++ ";" ++
+    showState p.state ++ "}"
+
+def kindName : ErrKind → String
+  | .alreadyDefined => "AlreadyDefined" | .noEntryPoint => "NoEntryPoint"
+  | .invalidStageCombination => "InvalidStageCombination" | .entryUnknown => "EntryUnknown"
+  | .propertyUnknown => "PropertyUnknown" | .propertyDuplicate => "PropertyDuplicate"
+  | .requiresGraphics => "RequiresGraphics" | .requiresString => "RequiresString"
+  | .requiresInteger => "RequiresInteger" | .argumentUnknown => "ArgumentUnknown"
+  | .stringNotUsable => "StringNotUsable" | .unsupported => "Unsupported"
+
+def showTyper : Except (String × Err) TState → String
+  | .ok s => "ok:" ++ String.join (s.pipes.map showIrPipe)
+  | .error (n, e) =>
+    match e.kind with
+    | .unsupported => "unsupported"
+    | .stringNotUsable => "err:other:error: string may not be used"
+    | k => "err:" ++ kindName k ++ "@" ++ n ++ "." ++ toString e.path
+
+/-- The name the HLSL exporter prints for an entry function (a thin mirror of `NameMap::build`, which is C15's subject):
+    a function that shares its name with other non-template functions of the same scope is printed as `name_k`,
+    k = its position among them; otherwise the name is kept (the generated names are not reserved words). -/
+def hlslEntryName (reg : List FnDecl) (i : Nat) : String :=
+  match reg[i]? with
+  | none => "?"
+  | some f =>
+    let scope (g : FnDecl) : String := (g.shape.drop 1).toString
+    let group := (reg.zipIdx.filter fun p => p.1.name == f.name && !p.1.isTemplate && scope p.1 == scope f).map (·.2)
+    if group.length ≤ 1 then f.name
+    else f.name ++ "_" ++ toString (group.idxOf i)
+
+def showWideOut (msl : Bool) (reg : List FnDecl) (p : IrPipe) : String :=
+  "[" ++ ",".intercalate (p.stages.map fun s =>
+      s.stage.name ++ "(" ++ (if msl then mslEntryName s.stage else hlslEntryName reg s.entry) ++ ")@" ++ showTgs s.tgs) ++
+    "|" ++ showState p.state ++ "]"
+
 def handle (op : String) (args : List String) : String :=
   match op, args with
   | "C17.select", [tgt, mode, pipes, _seed, bare] =>
@@ -50,6 +231,45 @@ def handle (op : String) (args : List String) : String :=
       | .errNone => "err:none"
       | .panicMultiple => "panic:multiple"
     | _, _ => "bad-request"
+  | "C17.typer", [on, prog] =>
+    if hasGarbage (on == "on") prog then "err:parse"
+    else
+    match parseProgram (on == "on") prog with
+    | some (items, bad) =>
+      if hasRedefinition items then "unsupported" else
+      match typeCheck items, bad with
+      | .ok _, some n => "err:decl@R:" ++ n
+      | r, _ => showTyper r
+    | none => "unsupported"
+  | "C17.wide", [tgt, mode, opts, prog, fails, bare] =>
+    let optl := opts.splitOn ","
+    -- compile() checks its arguments first, then runs the front end (the parser before the type checker, layout
+    -- validation after it)
+    if optl.contains "ba" && tgt != "vk" && tgt != "vkba" then "err:args"
+    else if hasGarbage (opts.startsWith "on") prog then "err:front"
+    else
+    match parseMode mode, parseProgram (opts.startsWith "on") prog with
+    | some m, some (items, bad) =>
+      if hasRedefinition items then "unsupported" else
+      match typeCheck items with
+      | .error (_, e) => if e.kind == .unsupported then "unsupported" else "err:front"
+      | .ok s =>
+        if bad.isSome then "err:front" else
+        if optl.contains "vl" && hasLayoutTrap prog then "err:front" else
+        let msl := tgt == "msl"
+        let failing := if fails == "-" then [] else fails.splitOn ","
+        let ps : List (Pipeline IrPipe) := s.pipes.map fun p => { name := p.name, payload := p }
+        let build : Option (Pipeline IrPipe) → Except Unit String :=
+          fun p => match p with
+            | some p => if failing.contains p.name then .error () else .ok (showWideOut msl s.reg p.payload)
+            | none => if bare == "bare=ok" then .ok "[|-]" else .error ()
+        match compileLoop build ps m with
+        | .ok outs => "ok:" ++ String.join outs
+        | .buildErr _ => "err:build"
+        | .errUnknown n => "err:unknown:" ++ n
+        | .errNone => "err:none"
+        | .panicMultiple => "panic:multiple"
+    | _, _ => "unsupported"
   | _, _ => "unsupported-op"
 
 end RsslVerif.Driver.C17
